@@ -310,3 +310,70 @@ fn array_get_set_contract(n: usize) {
         k += 1;
     }
 }
+
+// ------------------------------------------------------------------------------------------
+// C12  bounded twins of the Call / Return arms (the real arm text, compiled as methods by the driver:
+// registry.TWINS). Same contracts as the Verus unit c12_calls, on small stacks, whatever the arm's syntactic form.
+// ------------------------------------------------------------------------------------------
+
+/// O12.2k [bounded: 1 argument, callee with 1..=3 slots, two caller slots below] Call: arguments stay in place,
+/// remaining slots are NULL, callee word gone, one frame pushed with the return address, caller slots untouched
+#[kani::proof]
+#[kani::unwind(6)]
+#[kani::stub(std::fmt::format, fmt_stub)]
+fn c12_call_twin() {
+    let (c0, c1, arg) = (any_immediate(), any_immediate(), any_immediate());
+    let ip: u32 = kani::any();
+    let locals: u16 = kani::any();
+    kani::assume(locals <= 3);
+    kani::cover!(locals == 3);
+    kani::cover!(locals == 0);
+    let f = Object::function(ip, locals);
+    let mut st = Vec::with_capacity(8);
+    st.push(c0); st.push(c1); st.push(arg); st.push(f);
+    // junk above the live part of the stack must never become visible as a local
+    let mut vm = ManuallyDrop::new(VM { stack: st, globals: Vec::new(), frames: vec![Frame::new(7, 0)], instructions: vec![OpCode::Call as u8, 1, 0], ip: 1, bp: 0 });
+    vm.frames.reserve(4);
+    let r = keep(vm.verif_arm_call());
+    if locals < 1 {
+        assert!(matches!(&*r, Err(Error::ArgumentError(_))));
+    } else {
+        assert!(r.is_ok());
+        assert!(vm.bp == 2 && vm.ip == ip as usize);
+        assert!(vm.stack.len() == 2 + locals as usize);
+        assert!(word(vm.stack[0]) == word(c0) && word(vm.stack[1]) == word(c1) && word(vm.stack[2]) == word(arg));
+        let mut i = 3;
+        while i < vm.stack.len() { assert!(word(vm.stack[i]) == word(Object::null())); i += 1; }
+        assert!(vm.frames.len() == 2 && vm.frames[0].ip == 2 && vm.frames[0].base_pointer == 0);
+        assert!(vm.frames[1].ip == ip as usize && vm.frames[1].base_pointer == 2);
+    }
+}
+
+/// O12.3k [bounded: caller stack of 2 slots, callee activation of 0..=2 slots] ReturnValue / Return: the caller's
+/// stack is exactly as before plus the result (null for Return); frame popped; ip / bp restored
+#[kani::proof]
+#[kani::unwind(6)]
+#[kani::stub(std::fmt::format, fmt_stub)]
+fn c12_return_twin() {
+    let (c0, c1, l0, l1, res, last) = (any_immediate(), any_immediate(), any_immediate(), any_immediate(), any_immediate(), any_immediate());
+    let n_locals: usize = kani::any();
+    kani::assume(n_locals <= 2);
+    kani::cover!(n_locals == 2);
+    let with_value: bool = kani::any();
+    let mut st = Vec::with_capacity(8);
+    st.push(c0); st.push(c1);
+    if n_locals >= 1 { st.push(l0); }
+    if n_locals >= 2 { st.push(l1); }
+    if with_value { st.push(res); }
+    let (rip, rbp): (usize, u16) = (kani::any(), kani::any());
+    kani::assume(rbp <= 2);
+    let mut vm = ManuallyDrop::new(VM { stack: st, globals: Vec::new(), frames: vec![Frame::new(rip, rbp), Frame::new(99, 2)], instructions: vec![0], ip: 99, bp: 2 });
+    let constants = ManuallyDrop::new(Vec::new());
+    let mut gc = new_gc();
+    let r = keep(if with_value { vm.verif_arm_return_value(&constants, &mut gc, last) } else { vm.verif_arm_return(&constants, &mut gc, last) });
+    assert!(r.is_ok());
+    assert!(vm.stack.len() == 3);
+    assert!(word(vm.stack[0]) == word(c0) && word(vm.stack[1]) == word(c1));
+    assert!(word(vm.stack[2]) == word(if with_value { res } else { Object::null() }));
+    assert!(vm.frames.len() == 1 && vm.ip == rip && vm.bp == rbp);
+}
